@@ -60,6 +60,12 @@ impl<T: RealNumber, M: Matrix<T>> InteriorPointOptimizer<T, M> {
 
         let y = M::from_row_vector(y.sub_scalar(y.mean())).transpose();
 
+        // a constant target: the centred problem is y = 0, whose minimiser is w = 0 (the duality
+        // gap test below would divide 0 by 0)
+        if (0..n).all(|i| y.get(i, 0) == T::zero()) {
+            return Ok(M::zeros(p, 1));
+        }
+
         let max_ls_iter = 100;
         let mut pitr = 0;
         let mut w = M::zeros(p, 1);
